@@ -17,26 +17,47 @@ type ModbusTCPAssembler struct {
 func (m *ModbusTCPAssembler) ReceiveRead(ctx context.Context, received []byte, bytesRead int) (response []byte, closeConnection bool) {
 	m.received.Write(received)
 
-	n, err := packet.LooksLikeModbusTCP(m.received.Bytes(), false)
-	if err == packet.ErrTCPDataTooShort {
-		return nil, false // wait for more data to arrive
-	} else if err != nil {
-		return err.(*packet.ErrorParseTCP).Bytes(), false
+	// a single read can complete more than one request (and a request can arrive in many reads): answer every
+	// complete request that is buffered, in order, and leave an incomplete one in the buffer
+	for {
+		buffered := m.received.Bytes()
+		n, err := packet.LooksLikeModbusTCP(buffered, false)
+		if err == packet.ErrTCPDataTooShort {
+			return response, false // wait for more data to arrive
+		}
+		if err == packet.ErrIsNotTCPPacket {
+			// the stream can not be synchronized to a packet boundary anymore: answer to what the header claims to
+			// be and drop everything that is buffered
+			m.received.Reset()
+			return append(response, packet.ErrIsNotTCPPacket.Bytes()...), false
+		}
+		if len(buffered) < n {
+			return response, false // wait for the rest of the packet to arrive
+		}
+		frame := m.received.Next(n)
+		if err != nil {
+			// unsupported function code: the packet is consumed and answered with the exception
+			response = append(response, err.(*packet.ErrorParseTCP).Bytes()...)
+			continue
+		}
+		response = append(response, m.handle(ctx, frame)...)
 	}
+}
 
-	p, err := packet.ParseTCPRequest(m.received.Next(n))
+func (m *ModbusTCPAssembler) handle(ctx context.Context, frame []byte) []byte {
+	p, err := packet.ParseTCPRequest(frame)
 	if err != nil {
-		return err.(*packet.ErrorParseTCP).Bytes(), false
+		return err.(*packet.ErrorParseTCP).Bytes()
 	}
 
 	resp, err := m.Handler.Handle(ctx, p)
 	if err != nil {
 		var target *packet.ErrorParseTCP
 		if errors.As(err, &target) {
-			return target.Bytes(), false
+			return target.Bytes()
 		}
-		return packet.NewErrorParseTCP(packet.ErrUnknown, err.Error()).Bytes(), false
+		return packet.NewErrorParseTCP(packet.ErrUnknown, err.Error()).Bytes()
 	}
 
-	return resp.Bytes(), false
+	return resp.Bytes()
 }
